@@ -131,7 +131,7 @@ def generate(repo: Path, outdir: Path) -> None:
     for name in sorted(ok):
         ent = ok[name]
         lines.append(f"/-- `mxlpy.fns.{name}({', '.join(ent['args'])})` -/")
-        lines.append(f"def {name} : SExpr := {_lean_expr(ent['e'])}")
+        lines.append(f"def {name} : BExpr := {_lean_expr(ent['e'])}")
         lines.append(f"def {name}_arity : Nat := {len(ent['args'])}")
         lines.append("")
     for name in sorted(bad):
